@@ -383,6 +383,20 @@ def run(ck: Check):
                             "max_vtime": 600.0, "family": "static-membership"})
                 nstatic += 1
     ck.extra["static_membership_runs"] = nstatic
+    # the JoinGroup that carries the member id just handed out with MEMBER_ID_REQUIRED fails, and the coordinator
+    # fails over at that moment (pending member ids are not replicated): the next JoinGroup is answered
+    # UNKNOWN_MEMBER_ID and the member has to start over with an empty id
+    j = 0
+    for kind, code in (("error", 16), ("error", 15), ("drop_before", 0), ("no_reply", 0)):
+        for keep in (False, True):
+            for who in ("c0", "c1"):
+                sc = base(f"pendingid-{j}", {})
+                sc["brokers"] = 2
+                sc["api_faults"] = [{"client": who, "api": "JoinGroup", "nth": 2, "kind": kind, "code": code,
+                                     "event": {"op": "coord_move", "to": 1, "keep_state": keep}}]
+                sc["family"] = "pending-member-id-lost"
+                scs.append(sc)
+                j += 1
     # ONE Heartbeat reply carries a non-retriable error (GROUP_AUTHORIZATION_FAILED: the ACL flapped), then the
     # environment is quiet: with the auto-commit timer running the member finds its way back, without it see K5
     for j, (nth, ac) in enumerate([(2, True), (3, True), (2, False), (4, False)]):
